@@ -487,6 +487,7 @@ type Explorer struct {
 	qcache     map[string]qres
 	CacheHits  int
 	InitWall   time.Duration
+	reached    bool
 }
 
 func (e *Explorer) ExecutedList() []string { return sortedKeys(e.executed) }
@@ -615,6 +616,7 @@ func (e *Explorer) reset(prefix []int) {
 	e.pc = nil
 	e.nondetN = map[string]int{}
 	e.curAsserts = nil
+	e.reached = false
 }
 
 type qres struct {
@@ -805,7 +807,7 @@ func (e *Explorer) Run(runOnce func()) {
 				SCH.killAll()
 			}
 		}()
-		if len(e.curAsserts) > 0 {
+		if len(e.curAsserts) > 0 || e.reached {
 			e.Nontrivial++
 		}
 		if len(e.Samples) < 3 && (end == "done") && len(e.curAsserts) > 0 {
